@@ -146,6 +146,22 @@ def run(repo, rep, tier):
     rt = repo.func("model.py", "_NumbersModel.table_rich_text")
     ok = any(isinstance(n, ast.If) and U(n.test).replace(" ", "") in ("string_key==entry.key", "entry.key==string_key") for n in body_walk(rt))
     rep.ob("C06.R1", rt, "table_rich_text finds the entry carrying the key (position independent)", ok, "", key="C06.R1@table_rich_text")
+    # no scan over a keyed list gives up on an ordering test: the entries of a list may be stored in any order
+    early = []
+    n_scans = 0
+    for mod_ in ("model.py", "containers.py"):
+        for fn_ in [n for n in ast.walk(repo.tree(mod_)) if isinstance(n, ast.FunctionDef)]:
+            for lp in [n for n in body_walk(fn_) if isinstance(n, ast.For) and isinstance(n.iter, ast.Attribute) and n.iter.attr in ("entries", "headers")]:
+                n_scans += 1
+                for iff in [n for n in ast.walk(lp) if isinstance(n, ast.If)]:
+                    ordering = [c for c in ast.walk(iff.test) if isinstance(c, ast.Compare) and any(isinstance(o, (ast.Lt, ast.Gt, ast.LtE, ast.GtE)) for o in c.ops)
+                                and any(isinstance(x, ast.Attribute) and x.attr in ("key", "index") for x in ast.walk(c))]
+                    leaves = [x for b in iff.body for x in ast.walk(b) if isinstance(x, (ast.Break, ast.Return))]
+                    if ordering and leaves:
+                        early.append((iff, fn_.name, U(iff.test)))
+    rep.ob("C06.R1", early[0][0] if early else rt, f"no scan of a keyed list stops on an ordering test of the keys ({n_scans} scans)", not early,
+           "" if not early else f"{early[0][1]}: the scan stops when `{early[0][2]}`: that assumes the entries are stored in ascending key order; in another order the entry is not found "
+           "(text, formats or sizes silently fall back to defaults)", key="C06.R1@scan-order")
     # inventory of silent fallbacks (no verdict)
     ts = repo.func("model.py", "_NumbersModel.table_string")
     rep.info("C06.inventory", f"table_string fallback on KeyError: {'return \"\"' if 'KeyError' in U(ts) else 'none'}")
@@ -255,6 +271,8 @@ def run(repo, rep, tier):
 
 
 VARIANTS = [
+    M("rich-text-scan-stops-at-larger-key", "model.py", "        for entry in rich_text_table.entries:  # pragma: no branch  # noqa: RET503\n            if string_key == entry.key:",
+      "        for entry in rich_text_table.entries:  # pragma: no branch  # noqa: RET503\n            if entry.key > string_key:\n                break\n            if string_key == entry.key:", "C06.R1"),
     T("record-end-next-generator", "model.py", """            end = None
             # Find next positive offset
             for i, x in enumerate(offsets[col + 1 :]):
